@@ -33,11 +33,19 @@ type C12Op struct {
 type C12Case struct {
 	Packet bool    `json:"packet"`
 	Ops    []C12Op `json:"ops"`
+	// packet listeners: the address family of the shared socket and the size every datagram is padded to
+	// (65507 is the largest IPv4 datagram, 65527 the largest IPv6 one)
+	V6    bool `json:"v6,omitempty"`
+	PadTo int  `json:"pad_to,omitempty"`
 }
 
 func genC12(packet bool, maxOps int) func(t *rapid.T) C12Case {
 	return func(t *rapid.T) C12Case {
 		c := C12Case{Packet: packet}
+		if packet {
+			c.V6 = rapid.Bool().Draw(t, "v6")
+			c.PadTo = rapid.SampledFrom([]int{0, 0, 0, 1400, 9000, 65507, 65508, 65520, 65527}).Draw(t, "padTo")
+		}
 		n := rapid.IntRange(1, maxOps).Draw(t, "nops")
 		c.Ops = append(c.Ops, C12Op{Kind: "acquire"})
 		for i := 0; i < n; i++ {
@@ -55,6 +63,7 @@ type c12Call struct {
 	started  time.Time
 	done     chan struct{}
 	token    string
+	size     int // packet: bytes received
 	err      error
 	finished time.Time
 }
@@ -70,6 +79,7 @@ type c12Handle struct {
 
 type c12World struct {
 	packet        bool
+	padTo, size   int
 	addr          string
 	mgr           service.ListenerManager
 	handles       []*c12Handle
@@ -101,11 +111,11 @@ func (w *c12World) startCall(h *c12Handle) *c12Call {
 	go func() {
 		defer close(c.done)
 		if w.packet {
-			buf := make([]byte, 64)
+			buf := make([]byte, 66000)
 			n, _, err := h.pc.ReadFrom(buf)
 			c.err = err
 			if err == nil {
-				c.token = string(buf[:n])
+				c.token, c.size = string(buf[:min(n, 8)]), n
 			}
 		} else {
 			conn, err := h.sl.AcceptStream()
@@ -146,9 +156,14 @@ func (w *c12World) send() error {
 	tok := fmt.Sprintf("tok%05d", len(w.sent))
 	if w.packet {
 		ra, _ := net.ResolveUDPAddr("udp", w.addr)
-		if _, err := w.client.WriteToUDP([]byte(tok), ra); err != nil {
+		pkt := []byte(tok)
+		if w.padTo > len(pkt) {
+			pkt = append(pkt, make([]byte, w.padTo-len(pkt))...)
+		}
+		if _, err := w.client.WriteToUDP(pkt, ra); err != nil {
 			return err
 		}
+		w.size = len(pkt)
 	} else {
 		c, err := kit.DialTCP(w.addr, c12Bound)
 		if err != nil {
@@ -192,6 +207,9 @@ func (w *c12World) check() *kit.Finding {
 		c := cs[0]
 		if strings.HasPrefix(tok, "?") {
 			continue
+		}
+		if w.packet && c.size != w.size {
+			return kit.Violation("listener:datagram-truncated", "datagram %s of %d bytes was delivered to handle %d as %d bytes: the datagram that arrived was not delivered", tok, w.size, c.h.idx, c.size)
 		}
 		if c.h.closed && !c.h.closedAt.IsZero() && c.started.After(c.h.closedAt) {
 			return kit.Violation("listener:delivered-to-closed-handle", "token %s was delivered to handle %d by a call that started %v after its Close had returned", tok, c.h.idx, c.started.Sub(c.h.closedAt))
@@ -239,13 +257,23 @@ func runC12Once(c C12Case, info *kit.Info) *kit.Finding {
 		info.Skipped = err.Error()
 		return nil
 	}
+	clientIP := net.IPv4(127, 0, 0, 1)
+	padTo := min(c.PadTo, 65507)
+	if c.Packet && c.V6 && kit.HaveAddr("::1") {
+		_, port, _ := net.SplitHostPort(addr)
+		addr, clientIP, padTo = net.JoinHostPort("::1", port), net.IPv6loopback, c.PadTo
+		info.Class("packet:ipv6")
+	}
+	if padTo > 65507 {
+		info.Class("packet:beyond-the-IPv4-maximum")
+	}
 	baseline := map[string]bool{}
 	for _, g := range kit.RepoGoroutines() {
 		baseline[goroutineID(g)] = true // leaks of earlier cases are not this case's
 	}
-	w := &c12World{packet: c.Packet, addr: addr, mgr: service.NewListenerManager(), deliv: map[string][]*c12Call{}, conns: map[string]net.Conn{}, info: info, voided: map[string]bool{}}
+	w := &c12World{packet: c.Packet, addr: addr, mgr: service.NewListenerManager(), deliv: map[string][]*c12Call{}, conns: map[string]net.Conn{}, info: info, voided: map[string]bool{}, padTo: padTo}
 	if c.Packet {
-		w.client, err = net.ListenUDP("udp", &net.UDPAddr{IP: net.IPv4(127, 0, 0, 1)})
+		w.client, err = net.ListenUDP("udp", &net.UDPAddr{IP: clientIP})
 		if err != nil {
 			info.Skipped = err.Error()
 			return nil
@@ -432,6 +460,9 @@ func runC12Once(c C12Case, info *kit.Info) *kit.Finding {
 				continue
 			}
 			for k := 0; k < op.N; k++ {
+				if _, u := w.counts(); w.padTo > 9000 && u >= 1 {
+					break // one huge datagram in flight at a time: two of them overflow the socket's receive buffer
+				}
 				if err := w.send(); err != nil {
 					return kit.Violation("listener:refused", "op %d: connecting/sending to %s failed while %d handles are open: %v", i, addr, len(open()), err)
 				}
